@@ -504,3 +504,7 @@ pub fn verif_set_reader_waker(urx: &UserRx, w: std::task::Waker) {
 pub fn verif_queue_items(urx: &UserRx) -> usize {
     urx.shared.locked.lock().queue.verif_items().len()
 }
+
+pub fn verif_ooq_scalars(urx: &UserRx) -> (usize, usize, usize) {
+    (urx.ooq.len, urx.ooq.filled_front, urx.ooq.len_bytes)
+}
